@@ -123,7 +123,7 @@ func genTree(seed uint64, reopen bool) *TreePlan {
 			setModel(k, v)
 		case x < 63:
 			n := 10 + r.IntN(200)
-			if growth && r.IntN(3) == 0 {
+			if growth && r.IntN(3) == 0 && len(p.Ops) > nops-25 {
 				n = 20000 + r.IntN(30000)
 			} else if n > budget {
 				n = budget
@@ -200,7 +200,9 @@ func genTree(seed uint64, reopen bool) *TreePlan {
 	}
 	if r.IntN(8) == 0 {
 		// place a fill-to-frontier (and a reopen right after it) somewhere in the history
-		at := r.IntN(len(p.Ops) + 1)
+		// near the end: every later operation is checked against a model of
+		// tens of thousands of keys, which makes long tails slow
+		at := len(p.Ops) - r.IntN(min(len(p.Ops), 12)+1)
 		fill := []TOp{{K: TFillToFrontier, Key: 1<<40 + uint64(r.IntN(1000))*1000003, Val: drawVal(), N: r.IntN(3)}}
 		if reopen {
 			fill = append(fill, TOp{K: TReopen})
@@ -214,15 +216,16 @@ func genTree(seed uint64, reopen bool) *TreePlan {
 }
 
 type treeRun struct {
-	plan  *TreePlan
-	tree  *z.Tree
-	path  string
-	model map[uint64]uint64
-	gone  map[uint64]bool // keys removed so far (must read 0 until set again)
-	viol  []Violation
-	prop  string
-	stats treeStats
-	opIdx int
+	plan     *TreePlan
+	tree     *z.Tree
+	path     string
+	model    map[uint64]uint64
+	gone     map[uint64]bool // keys removed so far (must read 0 until set again)
+	goneList []uint64
+	viol     []Violation
+	prop     string
+	stats    treeStats
+	opIdx    int
 }
 
 type treeStats struct {
@@ -289,10 +292,18 @@ func (t *treeRun) fullCheck(prop, when string) {
 			n++
 		}
 	}
-	for k := range t.gone {
+	// deleted keys stay deleted: all of them while there are few, otherwise the
+	// most recent deletions in full plus a stride over the older ones
+	checked := 0
+	for i := len(t.goneList) - 1; i >= 0; i-- {
+		if checked > 3000 && i%17 != 0 {
+			continue
+		}
+		k := t.goneList[i]
 		if _, live := t.model[k]; live {
 			continue
 		}
+		checked++
 		if g := t.tree.Get(k); g != 0 {
 			t.violate(prop, "deleted-readable", fmt.Sprintf("%s: Get(%d)=%d although the key was deleted", when, k, g))
 			break
@@ -403,7 +414,10 @@ func runTree(plan *TreePlan, prop string, dir string) (res *RunResult) {
 			sort.Slice(dead, func(a, b int) bool { return dead[a] < dead[b] })
 			for _, k := range dead {
 				delete(t.model, k)
-				t.gone[k] = true
+				if !t.gone[k] {
+					t.gone[k] = true
+					t.goneList = append(t.goneList, k)
+				}
 			}
 			t.stats.deletedKeys += len(dead)
 			for _, k := range dead {
@@ -449,7 +463,10 @@ func runTree(plan *TreePlan, prop string, dir string) (res *RunResult) {
 		case TReset:
 			t.tree.Reset()
 			for k := range t.model {
-				t.gone[k] = true
+				if !t.gone[k] {
+					t.gone[k] = true
+					t.goneList = append(t.goneList, k)
+				}
 			}
 			t.model = map[uint64]uint64{}
 			t.fullCheck(prop, "after Reset")
